@@ -188,8 +188,8 @@ where
         .map(|(id, vec)| (id, compute_distance(query, vec, metric)))
         .collect();
 
-    // Sort by distance (ascending)
-    results.sort_by(|a, b| a.1.partial_cmp(&b.1).unwrap_or(std::cmp::Ordering::Equal));
+    // Sort by distance (ascending, NaN last)
+    results.sort_by(|a, b| cmp_distance(a.1, b.1));
 
     // Truncate to k
     results.truncate(k);
@@ -227,9 +227,24 @@ where
         .map(|(id, vec)| (id, compute_distance(query, vec, metric)))
         .collect();
 
-    results.sort_by(|a, b| a.1.partial_cmp(&b.1).unwrap_or(std::cmp::Ordering::Equal));
+    results.sort_by(|a, b| cmp_distance(a.1, b.1));
     results.truncate(k);
     results
+}
+
+/// Total order on distances: increasing, with NaN (the result of overflowing
+/// arithmetic such as `inf - inf`) after every number.
+///
+/// `partial_cmp(..).unwrap_or(Equal)` is not a total order when a NaN is present:
+/// the sort then leaves numbers on either side of the NaN unordered.
+fn cmp_distance(a: f32, b: f32) -> std::cmp::Ordering {
+    use std::cmp::Ordering;
+    match (a.is_nan(), b.is_nan()) {
+        (false, false) => a.partial_cmp(&b).unwrap_or(Ordering::Equal),
+        (true, true) => Ordering::Equal,
+        (true, false) => Ordering::Greater,
+        (false, true) => Ordering::Less,
+    }
 }
 
 /// Computes the distance between a query and multiple vectors in batch.
@@ -289,6 +304,23 @@ mod tests {
         assert_eq!(results.len(), 2);
         // Closest should be node 1 (dist 0.5) or node 2 (dist 0.5)
         assert!(results[0].0 == NodeId::new(1) || results[0].0 == NodeId::new(2));
+    }
+
+    #[test]
+    fn test_brute_force_knn_nan_distance_sorts_last() {
+        // 1e30 * 1e30 overflows to inf; inf - inf = NaN for node 2
+        let big = 1e30f32;
+        let (v1, v2, v3) = ([1.0f32, 1.0], [big, -big], [2.0f32, 2.0]);
+        let vectors = vec![
+            (NodeId::new(1), v1.as_slice()),
+            (NodeId::new(2), v2.as_slice()),
+            (NodeId::new(3), v3.as_slice()),
+        ];
+        let query = [big, big];
+        let results = brute_force_knn(vectors.into_iter(), &query, 3, DistanceMetric::DotProduct);
+        assert_eq!(results[0].0, NodeId::new(3));
+        assert_eq!(results[1].0, NodeId::new(1));
+        assert!(results[2].1.is_nan());
     }
 
     #[test]
